@@ -26,6 +26,7 @@ Families
 from __future__ import annotations
 
 import inspect
+import os
 
 import torch
 
@@ -46,13 +47,17 @@ def family(fn):
 # running one call of a matrix
 # ----------------------------------------------------------------------------
 
-def _spec(site, label, prep, nondet=False, sim=False, flags_ok=False):
+def _spec(site, label, prep, nondet=False, sim=False):
     return {"site": site, "label": label, "prep": prep, "nondet": nondet, "sim": sim}
 
 
 def _run_call(ctx, spec, block, dtype, form, zoo=None):
     """Snapshot, call, snapshot, compare; call again, compare the results."""
     site, label = spec["site"], spec["label"]
+    fam = "instrument_calls" if zoo is not None else "pure_calls_family"
+
+    def violation(*a, **k):
+        ctx.violation(*a, family=fam, **k)
     c = Caller(dtype, form)
     if zoo is not None:
         zoo.reset()
@@ -66,19 +71,19 @@ def _run_call(ctx, spec, block, dtype, form, zoo=None):
     try:
         s0 = W.snap_prims(zoo.prims) if zoo is not None else None
         a0 = c.snap()
+        raised = False
         try:
             with torch.no_grad() if prepared.get("no_grad") else torch.enable_grad():
                 out1 = thunk()
-        except Exception as e:       # the model defines a value for every call of the matrix
+        except Exception as e:       # every call of the matrix is inside the documented domain: a value is due
             from mc.core.runner import blame
             where = blame(e)
             if where is None:
                 raise
-            ctx.tick(1)
-            ctx.violation(site, f"raises:{type(e).__name__}",
-                          f"{label}: {type(e).__name__}: {str(e)[:200]} (raised in {where})",
-                          observed=f"{type(e).__name__}: {str(e)[:300]}", expected="a value", block=mini)
-            return None
+            raised, out1 = True, None
+            violation(site, f"raises:{type(e).__name__}",
+                      f"{label}: {type(e).__name__}: {str(e)[:200]} (raised in {where})",
+                      observed=f"{type(e).__name__}: {str(e)[:300]}", expected="a value", block=mini)
         s1 = W.snap_prims(zoo.prims) if zoo is not None else None
         mutated = False
         if zoo is not None:
@@ -91,14 +96,14 @@ def _run_call(ctx, spec, block, dtype, form, zoo=None):
                     got = zoo.p.get_buffer(name)
                     if not W.same_tensor(got.detach(), t):
                         mutated = True
-                        ctx.violation(site, f"simulated_series_altered:{name}",
+                        violation(site, f"simulated_series_altered:{name}",
                                       f"{label}: after the call the series '{name}' of the simulated underlier is not "
                                       f"what simulate() delivered ({zoo.kind}/{zoo.dkind}, {block['dtype']})",
                                       observed=W.describe(got), expected=W.describe(t), block=mini)
             for (i, name), kind in diffs:
                 mutated = True
                 before, after = s0[0].get((i, name)), s1[0].get((i, name))
-                ctx.violation(site, f"mutates_buffer:{name}:{kind}",
+                violation(site, f"mutates_buffer:{name}:{kind}",
                               f"{label}: buffer '{name}' of instrument #{i} ({zoo.kind if i == 0 else 'brownian'}) "
                               f"changed ({kind}) under {zoo.dkind}, {block['dtype']}",
                               observed=None if after is None else W.describe(after[0]),
@@ -113,20 +118,20 @@ def _run_call(ctx, spec, block, dtype, form, zoo=None):
         bad, flags = c.diff(a0)
         for name, kind in bad:
             mutated = True
-            ctx.violation(site, f"mutates_argument:{name}:{kind}",
+            violation(site, f"mutates_argument:{name}:{kind}",
                           f"{label}: caller tensor '{name}' changed ({kind}), form={form}, {block['dtype']}",
                           observed=W.describe(c.t[name][1]), expected=W.describe(a0[name][0]), block=mini)
         if flags:
             ctx.add("requires_grad_set_on_caller_tensor", len(flags))
         ctx.add("caller_tensors_snapshotted", len(a0))
         ctx.tick(1, nontrivial=1 if W.depends_on_data(out1) else 0)
-        if expect is not None:
+        if expect is not None and not raised:
             want = expect()
             if not W.same_result(out1, want):
-                ctx.violation(site, prepared.get("expect_class", "differs_from_fresh"),
+                violation(site, prepared.get("expect_class", "differs_from_fresh"),
                               f"{label}: {prepared.get('expect_msg', 'result differs from the independent evaluation')}",
                               observed=W.describe(out1), expected=W.describe(want), block=mini)
-        if not mutated and not spec["nondet"]:
+        if not mutated and not raised and not spec["nondet"]:
             try:
                 out2 = thunk()
             except Exception as e:
@@ -135,7 +140,7 @@ def _run_call(ctx, spec, block, dtype, form, zoo=None):
                     raise
                 out2 = f"{type(e).__name__}: {str(e)[:200]}"
             if not W.same_result(out1, out2):
-                ctx.violation(site, "not_repeatable",
+                violation(site, "not_repeatable",
                               f"{label}: the same call on the same data gives a different result the second time",
                               observed=W.describe(out2), expected=W.describe(out1), block=mini)
         if isinstance(out1, torch.Tensor) and out1.numel():
@@ -145,6 +150,15 @@ def _run_call(ctx, spec, block, dtype, form, zoo=None):
         if cleanup is not None:
             cleanup()
     return out1
+
+
+def _unique_labels(calls):
+    seen = set()
+    for s in calls:
+        if s["label"] in seen:
+            from mc.core.runner import HarnessError
+            raise HarnessError(f"duplicate call label {s['label']}")
+        seen.add(s["label"])
 
 
 def _selected(calls, block):
@@ -186,7 +200,7 @@ def _bs_kwargs(fn, c, strike="float", call=True):
     return kw
 
 
-def pure_calls(ctx_seed=0):
+def pure_calls():
     import pfhedge.nn.functional as F
     from pfhedge import autogreek
     from pfhedge._utils.bisect import bisect, find_implied_volatility
@@ -407,7 +421,9 @@ def _module_iv(c, m):
 @family
 def pure_calls_family(ctx, block):
     dtype = DT[block["dtype"]]
-    for spec in _selected(pure_calls(), block):
+    calls = pure_calls()
+    _unique_labels(calls)
+    for spec in _selected(calls, block):
         for form in ([block["form"]] if "form" in block else ["leaf", "view"]):
             _run_call(ctx, spec, {k: v for k, v in block.items() if k != "only"}, dtype, form)
 
@@ -465,6 +481,12 @@ def _fill(module, seed, dtype):
         for p in module.parameters():
             p.copy_(torch.randint(-12, 13, p.shape, generator=g).to(torch.float32) / 16 + 1 / 32)
     return module.to(dtype)
+
+
+#: criteria whose cash() is the default HedgeLoss.cash: a bisection with *absolute* precision 1e-6, unattainable in
+#: float32 once |P&L| >= 8 (ulp > 1e-6; e.g. variance-swap payoffs ~1e2: RuntimeError after 1e5 iterations).  That is
+#: a matter of C06/C19, so the call matrix evaluates these in float64 only.
+DEFAULT_CASH = ("OCE",)
 
 
 def zoo_calls(z, seed, tier="quick"):
@@ -603,7 +625,8 @@ def zoo_calls(z, seed, tier="quick"):
                     continue
             if tier == "quick" and hv != "default" and mv not in ("linear", "linear_prev", "identity_log_spot"):
                 continue
-            if not rich and hv not in ("default", "stock+listed"):
+            if not rich and (hv not in ("default", "stock+listed") or (hv != "default" and mv != "linear_prev")
+                             or mv in ("identity_spot", "identity_moneyness", "mlp", "naked")):
                 continue
 
             def with_hedger(c, fn, mv=mv, hv=hv):
@@ -613,14 +636,15 @@ def zoo_calls(z, seed, tier="quick"):
                 h = nn.Hedger(model, inputs)
                 return {"thunk": lambda: fn(h, hedges[hv]), "no_grad": True}
             tag = f"Hedger[{mv}|{hv}]"
-            add("Hedger.compute_hedge", f"{tag}.compute_hedge",
-                lambda c, w=with_hedger: w(c, lambda h, hl: h.compute_hedge(d, hedge=hl)))
+            if rich or mv in ("identity_log_spot", "modout"):
+                add("Hedger.compute_hedge", f"{tag}.compute_hedge",
+                    lambda c, w=with_hedger: w(c, lambda h, hl: h.compute_hedge(d, hedge=hl)))
             if rich or mv == "linear":
                 add("Hedger.compute_portfolio", f"{tag}.compute_portfolio",
                     lambda c, w=with_hedger: w(c, lambda h, hl: h.compute_portfolio(d, hedge=hl)))
             add("Hedger.compute_pl", f"{tag}.compute_pl",
                 lambda c, w=with_hedger: w(c, lambda h, hl: h.compute_pl(d, hedge=hl)))
-            if mv not in ("linear_prev", "ww") and hv == "default":
+            if mv not in ("linear_prev", "ww") and hv == "default" and (rich or mv == "linear"):
                 for t in (None, 1):
                     add("Hedger.get_input", f"{tag}.get_input({t})",
                         lambda c, w=with_hedger, t=t: w(c, lambda h, hl: h.get_input(d, t)))
@@ -632,10 +656,12 @@ def zoo_calls(z, seed, tier="quick"):
         for hv in ("default", "two"):
             if tier == "quick" and hv != "default" and cname != "EntropicRiskMeasure":
                 continue
-            if not rich and (hv != "default" or cname not in ("EntropicRiskMeasure", "QuadraticCVaR")):
+            if not rich and (hv != "default" or cname != "EntropicRiskMeasure"):
                 continue
             for meth in ("compute_loss", "price", "fit"):
                 if meth == "fit" and (cname not in ("EntropicRiskMeasure", "ExpectedShortfall") or not rich):
+                    continue
+                if meth == "price" and cname in DEFAULT_CASH and z.dtype != torch.float64:
                     continue
 
                 def prep(c, mkc=mkc, hv=hv, meth=meth):
@@ -664,7 +690,8 @@ def zoo_calls(z, seed, tier="quick"):
             crit = mkc()
             return (lambda: crit.cash(pf, po)) if cash else (lambda: crit(pf, po))
         add(f"{cname}.forward", f"{cname}(portfolio,payoff)", lambda c, f=prep_crit: f(c))
-        add(f"{cname}.cash", f"{cname}.cash(portfolio,payoff)", lambda c, f=prep_crit: f(c, cash=True))
+        if cname not in DEFAULT_CASH or z.dtype == torch.float64:
+            add(f"{cname}.cash", f"{cname}.cash(portfolio,payoff)", lambda c, f=prep_crit: f(c, cash=True))
     # -- functional pl on the series themselves ------------------------------------------------------------------------------------------------------------------------
     def prep_pl(c):
         unit = c.mk("unit", (torch.arange(z.N * 2 * T, dtype=torch.float64).reshape(z.N, 2, T) % 5 - 2) / 4)
@@ -735,7 +762,9 @@ def zoo_calls(z, seed, tier="quick"):
 def instrument_calls(ctx, block):
     z = Zoo(block)
     base = {k: v for k, v in block.items() if k != "only"}
-    calls = _selected(zoo_calls(z, ctx.seed % 5, ctx.tier), block)
+    calls = zoo_calls(z, ctx.seed % 5, ctx.tier)
+    _unique_labels(calls)
+    calls = _selected(calls, block)
     for spec in calls:
         _run_call(ctx, spec, base, z.dtype, block.get("form", "leaf"), zoo=z)
     if "only" not in block:
@@ -743,6 +772,13 @@ def instrument_calls(ctx, block):
         if len(ctx.samples) < 2:
             ctx.sample({"family": "instrument_calls", "world": base, "paths": z.N, "calls": len(calls),
                         "first_labels": [s["label"] for s in calls[:8]]})
+
+
+@family
+def instrument_worlds(ctx, block):
+    """Several worlds of the call matrix in one task (parallel scheduling unit)."""
+    for b in block["worlds"]:
+        instrument_calls(ctx, b)
 
 
 # ----------------------------------------------------------------------------
@@ -789,7 +825,7 @@ class _Observer:
                 want = {n: v[0].to(DT[op[2]]) for (i, n), v in s0[0].items() if i == allowed}
             else:
                 kind, _, _, T = W.DERIVS[allowed]
-                want = {n: t.to(p.dtype) for n, t in W.script_for(kind, T)(op[2], (T - 1) * market.DT, None).items()}
+                want = {n: t.to(p.dtype) for n, t in W.script_for(kind, T)(op[2], (T - 1) * W.H_DT, None).items()}
             got = {n: b for n, b in p.named_buffers()}
             if sorted(got) != sorted(want) or not all(W.same_tensor(got[n].detach(), want[n]) for n in want):
                 ctx.violation(site, "simulated_series_altered",
@@ -878,15 +914,17 @@ def histories(ctx, block):
     init = [tuple(o) for o in block["init"]]
     # bfs rebuilds the world before every operation; a world on which no operation was run since it was
     # built (the operation was not enabled) is handed out again instead of being rebuilt
-    cache = {}
+    cache = {}                                   # history -> world, two most recently used
 
     def build(h):
         key = tuple(h)
-        w = cache.get("world") if cache.get("key") == key else None
+        w = cache.pop(key, None)
         if w is None or w.dirty:
             w = W.build(variant, seed, h)
             w.dirty = False
-            cache["key"], cache["world"] = key, w
+        cache[key] = w                            # most recent last
+        while len(cache) > 2:
+            cache.pop(next(iter(cache)))
         return w
 
     def on_transition(h, op, before, after):
@@ -897,8 +935,6 @@ def histories(ctx, block):
               enabled=lambda w, op: w.enabled(op), max_depth=len(init) + block["depth"])
     ctx.add("states", res.states)
     ctx.add("transitions", res.transitions)
-    ctx.info.setdefault("max_depth", 0)
-    ctx.info["max_depth"] = max(ctx.info["max_depth"], block["depth"])
     if len(ctx.samples) < 6:
         deepest = max(res.seen.values(), key=len)
         ctx.sample({"family": "histories", "variant": variant, "init": _fmt(init), "depth": block["depth"],
@@ -956,20 +992,25 @@ def run(ctx):
     if ctx.quick:
         blocks.append({"primary": "brownian", "derivative": "european", "dtype": "float64", "T": T, "call": False, "rich": True})
         blocks.append({"primary": "heston", "derivative": "european_binary", "dtype": "float64", "T": T, "call": False, "rich": False})
+    # one block per world; a few worlds per task so that worker start-up is amortised
+    workers = int(os.environ.get("VERIF_WORKERS", "0") or 0) or 4
+    if ctx.quick:            # single process: total CPU is what counts on a shared machine
         for b in blocks:
             ctx.run("instrument_calls", b)
     else:
-        ctx.run_parallel("instrument_calls", blocks, workers=4)
+        ctx.run_parallel("instrument_worlds", [{"worlds": blocks[k::workers * 3]} for k in range(workers * 3)],
+                         workers=workers)
     # -- histories ---------------------------------------------------------------------------------------------------
     hblocks = []
     for variant in W.VARIANTS:
         hblocks.append({"variant": variant, "init": [list(o) for o in PRESIM], "depth": ctx.pick(3, 4), "ops": ctx.tier})
         hblocks.append({"variant": variant, "init": [], "depth": ctx.pick(2, 4), "ops": ctx.tier})
+    ctx.info["max_depth"] = ctx.pick(3, 4)
     if ctx.quick:
         for b in hblocks:
             ctx.run("histories", b)
     else:
-        ctx.run_parallel("histories", hblocks, workers=4)
+        ctx.run_parallel("histories", hblocks, workers=workers)
 
 
 def _oce():
